@@ -27,10 +27,14 @@ RULE = (
     "every part is face-connected (independent BFS). overlap: cell subset, 1-3 layers, node / face criterion; "
     "oracle: sorted, grows monotonically with the layer count, contains every neighbour of the previous layer and "
     "equals the breadth-first closure computed from the raw incidence arrays. connected: grid_is_connected on a "
-    "subset / all cells agrees with BFS components (flag and component sizes). Non-trivial = subset / partition of a "
+    "subset / all cells agrees with BFS components (flag and component sizes). "
+    "Every call of a partitioner / overlap / connectivity query must leave the parent grid object bit-for-bit unchanged "
+    "(nodes, centres, normals, areas, volumes, incidence arrays, tags). seq (23 %): histories on ONE grid object - "
+    "partition (coordinates / wrapper / structured / overlap / connectivity) -> extract_subgrid with the full oracle -> "
+    "partition again -> extract again - mostly on 1-d / 2-d grids embedded in 3-d by a rigid motion. Non-trivial = subset / partition of a "
     "grid with >= 4 cells and (for extract) at least 2 chosen cells; distinct = hash of spec."
 )
-BUDGET = {"quick": {"cases": 6000, "seconds": 40}, "thorough": {"cases": 200000, "seconds": 1200}}
+BUDGET = {"quick": {"cases": 4500, "seconds": 40}, "thorough": {"cases": 200000, "seconds": 1200}}
 TECHNIQUE = "property-based testing (Hypothesis): differential against set algebra / BFS on the raw incidence, and parent-vs-child geometry"
 LEVEL_TEXT = ("Exploration: thousands of generated (grid, cell subset / partition count / overlap depth) cases per run "
               "over all grid families; extracted subgrids are re-measured and compared entity by entity with the parent "
@@ -44,11 +48,12 @@ DESIGN_REF = "DESIGN.md section 4, C22"
 ASSUMPTIONS = ["cell subsets are non-empty and without repetition", "overlap depth >= 1",
                "coarse dimensions given explicitly do not exceed the fine ones"]
 FNS = ["extract", "extract", "extract", "structured", "structured", "coordinates", "partition", "overlap", "overlap",
-       "connected"]
-REQUIRED = {"extract": 0.15, "structured": 0.1, "coordinates": 0.05, "partition": 0.05, "overlap": 0.1,
+       "connected", "seq", "seq", "seq"]
+REQUIRED = {"seq": 0.1, "partition-then-extract": 0.1, "seq-coordinates": 0.05, "seq-coordinates-embedded": 0.015,
+            "extract": 0.1, "structured": 0.1, "coordinates": 0.05, "partition": 0.05, "overlap": 0.1,
             "connected": 0.05, "dim1": 0.1, "dim2": 0.15, "dim3": 0.15, "subset-disconnected": 0.05,
             "subset-unsorted": 0.015, "subset-mask": 0.015, "overlap-node": 0.03, "overlap-face": 0.03,
-            "structured-coarse-dims": 0.02, "structured-num-part": 0.02, "embedded": 0.05}
+            "structured-coarse-dims": 0.02, "structured-num-part": 0.02, "embedded": 0.1}
 
 
 @st.composite
@@ -82,6 +87,16 @@ def _spec(draw, tier):
         s["cells"] = draw(raw)
         s["layers"] = draw(st.integers(1, 3))
         s["criterion"] = draw(st.sampled_from(["node", "face"]))
+    elif fn == "seq":
+        # histories on one grid object; low-dimensional grids embedded in 3-d are the interesting class
+        s["grid"] = draw(grid_spec(dims=(1, 2, 2, 3), gmsh=gm))
+        big = st.integers(0, 4000)
+        P = st.sampled_from(["coordinates", "coordinates", "coordinates", "partition", "structured", "overlap", "connected"])
+        steps = []
+        for _ in range(draw(st.integers(1, 2))):
+            steps.append([draw(P), draw(big), draw(big)])
+            steps.append(["extract", draw(big), draw(big)])
+        s["steps"] = steps
     else:
         s["grid"] = draw(grid_spec(gmsh=gm))
         s["cells"] = draw(st.one_of(st.none(), raw))
@@ -242,6 +257,88 @@ def _check_partition_vector(p, g, tag, what):
     return p.astype(int)
 
 
+_GEOM = ("nodes", "cell_volumes", "cell_centers", "face_centers", "face_areas", "face_normals")
+
+
+def _snapshot(g):
+    snap = {k: np.array(getattr(g, k), copy=True) for k in _GEOM}
+    # face_nodes: raw storage (the order of a face's nodes is documented as meaningful); cell_faces: the matrix
+    # itself (scipy sorts the indices of a column in place in abs(), used by Grid.cell_nodes; that order has no meaning)
+    m = g.face_nodes
+    snap["face_nodes"] = (m.format, m.shape, m.indptr.copy(), m.indices.copy(), m.data.copy())
+    snap["cell_faces"] = (g.cell_faces.format, dense_incidence(g))
+    snap["sizes"] = (g.dim, g.num_cells, g.num_faces, g.num_nodes)
+    snap["tags"] = {k: np.array(v, copy=True) for k, v in g.tags.items()}
+    return snap
+
+
+def _require_unchanged(g, snap, tag, what):
+    """The parent grid object is exactly as it was: a query / partition call has no business changing it."""
+    require((g.dim, g.num_cells, g.num_faces, g.num_nodes) == snap["sizes"], tag, f"{what}: sizes of the parent changed")
+    for k in _GEOM:
+        require_equal(getattr(g, k), snap[k], tag, f"{what}: parent {k} changed")
+    m = g.face_nodes
+    fmt, shape, indptr, indices, data = snap["face_nodes"]
+    require(m.format == fmt and m.shape == shape and np.array_equal(m.indptr, indptr)
+            and np.array_equal(m.indices, indices) and np.array_equal(m.data, data), tag,
+            f"{what}: parent face_nodes changed")
+    require(g.cell_faces.format == snap["cell_faces"][0] and g.cell_faces.shape == snap["cell_faces"][1].shape
+            and np.array_equal(dense_incidence(g), snap["cell_faces"][1]), tag, f"{what}: parent cell_faces changed")
+    require(set(g.tags) == set(snap["tags"]) and all(np.array_equal(g.tags[k], v) for k, v in snap["tags"].items()), tag,
+            f"{what}: parent tags changed")
+
+
+def _extract_oracle(part, g, arg, kw, exp_cells):
+    """extract_subgrid(g, arg, **kw) and the full parent-vs-child oracle; exp_cells = the parent cells in child order."""
+    ref = {k: getattr(g, k).copy() for k in ("nodes", "cell_volumes", "cell_centers", "face_centers", "face_areas",
+                                             "face_normals")}
+    Dg = dense_incidence(g)
+    h, fmap, nmap = part.extract_subgrid(g, arg, **kw)
+    ec = np.array(exp_cells, dtype=int)
+    fcs, nfs = faces_of_cells(g), nodes_of_faces(g)
+    exp_f = sorted({f for c in exp_cells for f in fcs[c]})
+    exp_n = sorted({n for f in exp_f for n in nfs[f]})
+    require_equal(fmap, np.array(exp_f), "extract-face-map", "face map vs faces of the chosen cells")
+    require_equal(nmap, np.array(exp_n), "extract-node-map", "node map vs nodes of the chosen cells")
+    require((h.num_cells, h.num_faces, h.num_nodes) == (len(ec), len(exp_f), len(exp_n)), "extract-sizes",
+            f"subgrid sizes {(h.num_cells, h.num_faces, h.num_nodes)}")
+    require(h.dim == g.dim, "extract-dim", "dimension changed")
+    require_equal(h.parent_cell_ind, ec, "extract-parent-cells", "parent_cell_ind")
+    require_equal(h.nodes, ref["nodes"][:, nmap], "extract-nodes", "node coordinates")
+    # the parent is untouched
+    for k, v in ref.items():
+        require_equal(getattr(g, k), v, "extract-parent-mutated", f"parent {k} changed")
+    # topology: submatrices of the parent
+    Dh = dense_incidence(h)
+    require_equal(np.abs(Dh), np.abs(Dg[np.ix_(fmap, ec)]), "extract-incidence", "cell-face pattern vs parent submatrix")
+    fn_g = (g.face_nodes.toarray() != 0)
+    require_equal(h.face_nodes.toarray() != 0, fn_g[np.ix_(nmap, fmap)], "extract-face-nodes",
+                  "face-node pattern vs parent submatrix")
+    # geometry copied by the extraction, and recomputed from scratch
+    sc = float(np.abs(ref["nodes"]).max()) + 1.0
+    for stage in ("copied", "recomputed"):
+        if stage == "recomputed":
+            h.compute_geometry()
+        T = f"extract-{stage}-"
+        require_close(h.cell_volumes, ref["cell_volumes"][ec], T + "volumes", rtol=1e-9, what="cell volumes")
+        require_close(h.cell_centers, ref["cell_centers"][:, ec], T + "cell-centers", rtol=1e-9, scale=sc,
+                      what="cell centres")
+        require_close(h.face_centers, ref["face_centers"][:, fmap], T + "face-centers", rtol=1e-9, scale=sc,
+                      what="face centres")
+        require_close(h.face_areas, ref["face_areas"][fmap], T + "face-areas", rtol=1e-9, what="face areas")
+        nh, ng = h.face_normals, ref["face_normals"][:, fmap]
+        nsc = float(np.abs(ng).max())
+        same = np.all(np.abs(nh - ng) <= 1e-9 * nsc, axis=0)
+        flip = np.all(np.abs(nh + ng) <= 1e-9 * nsc, axis=0)
+        require(np.all(same | flip), T + "normals", "face normals differ from the parent's by more than a sign")
+        fi, ci = np.nonzero(Dh)
+        out_h = nh[:, fi] * Dh[fi, ci]
+        out_g = ng[:, fi] * Dg[fmap[fi], ec[ci]]
+        require_close(out_h, out_g, T + "outward-normals", rtol=1e-9, scale=nsc,
+                      what="sign*normal per (face, cell) incidence")
+    return h
+
+
 # ------------------------------------------------------------------------- check
 def check(s):
     import porepy as pp
@@ -252,8 +349,12 @@ def check(s):
     labels = [fn] + labels
     nc = g.num_cells
     nontrivial = nc >= 4
+    snap = _snapshot(g)
 
-    if fn == "extract":
+    if fn == "seq":
+        nontrivial = _check_sequence(part, s, g, snap, labels) and nontrivial
+
+    elif fn == "extract":
         cells = _subset(s, nc)
         mode = s["mode"]
         srt = sorted(cells)
@@ -273,52 +374,7 @@ def check(s):
             labels.append("subset-mask")
         elif cells != srt:
             labels.append("subset-unsorted")
-        ref = {k: getattr(g, k).copy() for k in ("nodes", "cell_volumes", "cell_centers", "face_centers", "face_areas",
-                                                 "face_normals")}
-        Dg = dense_incidence(g)
-        h, fmap, nmap = part.extract_subgrid(g, arg, **kw)
-        ec = np.array(exp_cells, dtype=int)
-        fcs, nfs = faces_of_cells(g), nodes_of_faces(g)
-        exp_f = sorted({f for c in exp_cells for f in fcs[c]})
-        exp_n = sorted({n for f in exp_f for n in nfs[f]})
-        require_equal(fmap, np.array(exp_f), "extract-face-map", "face map vs faces of the chosen cells")
-        require_equal(nmap, np.array(exp_n), "extract-node-map", "node map vs nodes of the chosen cells")
-        require((h.num_cells, h.num_faces, h.num_nodes) == (len(ec), len(exp_f), len(exp_n)), "extract-sizes",
-                f"subgrid sizes {(h.num_cells, h.num_faces, h.num_nodes)}")
-        require(h.dim == g.dim, "extract-dim", "dimension changed")
-        require_equal(h.parent_cell_ind, ec, "extract-parent-cells", "parent_cell_ind")
-        require_equal(h.nodes, ref["nodes"][:, nmap], "extract-nodes", "node coordinates")
-        # the parent is untouched
-        for k, v in ref.items():
-            require_equal(getattr(g, k), v, "extract-parent-mutated", f"parent {k} changed")
-        # topology: submatrices of the parent
-        Dh = dense_incidence(h)
-        require_equal(np.abs(Dh), np.abs(Dg[np.ix_(fmap, ec)]), "extract-incidence", "cell-face pattern vs parent submatrix")
-        fn_g = (g.face_nodes.toarray() != 0)
-        require_equal(h.face_nodes.toarray() != 0, fn_g[np.ix_(nmap, fmap)], "extract-face-nodes",
-                      "face-node pattern vs parent submatrix")
-        # geometry copied by the extraction, and recomputed from scratch
-        sc = float(np.abs(ref["nodes"]).max()) + 1.0
-        for stage in ("copied", "recomputed"):
-            if stage == "recomputed":
-                h.compute_geometry()
-            T = f"extract-{stage}-"
-            require_close(h.cell_volumes, ref["cell_volumes"][ec], T + "volumes", rtol=1e-9, what="cell volumes")
-            require_close(h.cell_centers, ref["cell_centers"][:, ec], T + "cell-centers", rtol=1e-9, scale=sc,
-                          what="cell centres")
-            require_close(h.face_centers, ref["face_centers"][:, fmap], T + "face-centers", rtol=1e-9, scale=sc,
-                          what="face centres")
-            require_close(h.face_areas, ref["face_areas"][fmap], T + "face-areas", rtol=1e-9, what="face areas")
-            nh, ng = h.face_normals, ref["face_normals"][:, fmap]
-            nsc = float(np.abs(ng).max())
-            same = np.all(np.abs(nh - ng) <= 1e-9 * nsc, axis=0)
-            flip = np.all(np.abs(nh + ng) <= 1e-9 * nsc, axis=0)
-            require(np.all(same | flip), T + "normals", "face normals differ from the parent's by more than a sign")
-            fi, ci = np.nonzero(Dh)
-            out_h = nh[:, fi] * Dh[fi, ci]
-            out_g = ng[:, fi] * Dg[fmap[fi], ec[ci]]
-            require_close(out_h, out_g, T + "outward-normals", rtol=1e-9, scale=nsc,
-                          what="sign*normal per (face, cell) incidence")
+        _extract_oracle(part, g, arg, kw, exp_cells)
         nontrivial = nontrivial and len(cells) >= 2
 
     elif fn in ("structured", "coordinates", "partition"):
@@ -407,4 +463,47 @@ def check(s):
                     "components differ from BFS components")
         labels.append("subset-connected" if len(exp) == 1 else "subset-disconnected")
         nontrivial = nontrivial and len(cells) >= 2
-    return {"labels": labels, "nontrivial": bool(nontrivial)}
+    _require_unchanged(g, snap, "parent-mutated", fn)
+    return {"labels": sorted(set(labels)), "nontrivial": bool(nontrivial)}
+
+
+def _check_sequence(part, s, g, snap, labels):
+    """partition -> extract -> partition -> extract ... on ONE grid object; after every call the parent must be
+    exactly as before, and every extraction must satisfy the full parent-vs-child oracle."""
+    nc = g.num_cells
+    tensor = "grid" in s and s["grid"]["kind"] in ("cart", "tensor")
+    partitioned = False
+    for k, (kind, a, b) in enumerate(s["steps"]):
+        what = f"step {k} ({kind})"
+        if kind == "extract":
+            cells = sorted(cells_of([a + 7 * i * (b % 5 + 1) for i in range(1 + b % 6)], nc))
+            _extract_oracle(part, g, np.array(cells, dtype=int), {}, cells)
+            if partitioned:
+                labels.append("partition-then-extract")
+        elif kind == "overlap":
+            cells = sorted(cells_of([a, a + b], nc))
+            out = part.overlap(g, np.array(cells, dtype=int), 1 + b % 2, criterion=("node", "face")[a % 2])
+            require(set(cells) <= set(np.asarray(out).tolist()), "overlap-monotone", f"{what}: lost cells")
+            partitioned = True
+        elif kind == "connected":
+            part.grid_is_connected(g, np.array(sorted(cells_of([a, a + 1, b], nc)), dtype=int))
+            partitioned = True
+        else:
+            num = 1 + a % 12
+            try:
+                if kind == "structured" and tensor:
+                    p = part.partition_structured(g, num_part=num)
+                elif kind == "partition":
+                    p = part.partition(g, num)
+                else:
+                    p = part.partition_coordinates(g, num, check_connectivity=bool(b % 2))
+                    labels.append("seq-coordinates")
+                    if g.dim < 3 and "embedded" in labels:
+                        labels.append("seq-coordinates-embedded")
+                _check_partition_vector(p, g, "partition", what)
+            except ValueError as e:
+                if "unconnected" not in str(e):  # documented outcome of partition_coordinates
+                    raise
+            partitioned = True
+        _require_unchanged(g, snap, "parent-mutated", what)
+    return True
